@@ -21,6 +21,7 @@ package encode
 //@ let defaultMeta (and (= (len e.buf) (int 5)) (= (at e.buf (int 0)) #x89) (= (at e.buf (int 1)) #x49) (= (at e.buf (int 2)) #x56) (= (at e.buf (int 3)) #x47) (= (at e.buf (int 4)) #x00))
 //@ let bufRegionOnly (mem.frame2.u8 (old mem.u8) mem.u8 (old nextR) (rgn e.buf) (rgn (old e.buf)))
 //@ let InvW (and (bvule e.mode #x02) (=> (= e.drawOp #x00) (= (len e.drawArgs) (int 0))) (bvult e.cSel #x40) (bvult e.nSel #x40) (=> (and (= e.mode #x02) (not (= e.err nil.Iface))) (= e.err (errval errStylingOpsUsedInDrawingMode))))
+//@ let PEND (or (= e.drawOp #x00) (enc.isVerb e.drawOp))
 //@ let Inv (and (bvule e.mode #x02) (=> (= e.drawOp #x00) (= (len e.drawArgs) (int 0))) (=> (not (= e.drawOp #x00)) (= e.mode #x02)) (bvult e.cSel #x40) (bvult e.nSel #x40) (=> (and (= e.mode #x02) (not (= e.err nil.Iface))) (= e.err (errval errStylingOpsUsedInDrawingMode))))
 
 //@ contract (*buffer).encodeNatural
@@ -217,212 +218,268 @@ package encode
 //@   note counts C02
 //@   requires InvW
 //@   ensures [inv] Inv
-//@   requires [verb] (or (= e.drawOp #x00) (enc.isVerb e.drawOp))
+//@   requires [verb] PEND
 //@   modifies e.buf e.drawOp e.drawArgs mem.u8
 //@   ensures [C10.flush.empty C17.flush.empty] (and (= e.drawOp #x00) (= (len e.drawArgs) (int 0)))
 //@   ensures [C17.flush.noop C10.flush.noop C01.flush.noop] (=> (= (old e.drawOp) #x00) (and (= e.buf (old e.buf)) (= mem.u8 (old mem.u8))))
 //@   ensures [C01.tables.rows] (forall ((w!t (_ BitVec 64))) (=> (and (bvult w!t #x0000000000000100) (enc.isVerb ((_ extract 7 0) w!t))) (enctab.rowOK ((_ extract 7 0) w!t) drawOps[w!t].opcodeBase drawOps[w!t].maxRepCount drawOps[w!t].nArgs)))
 //@   let nA ((_ zero_extend 56) drawOps[e.drawOp].nArgs)
-//@   invariant 0 [flush.outer] (and (bvsle (int 0) i) (bvsle i (len e.drawArgs)) (bvsle (int 0) n) (bvsle n (len e.drawArgs)) (bvsle (bvadd i (bvmul n nA)) (len e.drawArgs)))
-//@   invariant 2 [flush.args] (and (bvsle (int 0) i) (bvsle i (len e.drawArgs)) (bvsle (int 0) j) (bvsle (int 0) n) (bvsle n (len e.drawArgs)) (bvsle (int 1) m) (bvsle m n) (bvsle j (bvmul m nA)) (bvsle (bvadd i (bvadd j (bvmul (bvsub n m) nA))) (len e.drawArgs)))
+//@   invariant 0 [flush.outer] (and (=> (= nA (int 1)) (and (bvsle (int 0) i) (bvsle i (len e.drawArgs)) (bvsle (int 0) n) (bvsle n (len e.drawArgs)) (bvsle (bvadd i (bvmul n (int 1))) (len e.drawArgs)))) (=> (= nA (int 2)) (and (bvsle (int 0) i) (bvsle i (len e.drawArgs)) (bvsle (int 0) n) (bvsle n (len e.drawArgs)) (bvsle (bvadd i (bvmul n (int 2))) (len e.drawArgs)))) (=> (= nA (int 4)) (and (bvsle (int 0) i) (bvsle i (len e.drawArgs)) (bvsle (int 0) n) (bvsle n (len e.drawArgs)) (bvsle (bvadd i (bvmul n (int 4))) (len e.drawArgs)))) (=> (= nA (int 6)) (and (bvsle (int 0) i) (bvsle i (len e.drawArgs)) (bvsle (int 0) n) (bvsle n (len e.drawArgs)) (bvsle (bvadd i (bvmul n (int 6))) (len e.drawArgs)))))
+//@   invariant 2 [flush.args] (and (=> (= nA (int 1)) (and (bvsle (int 0) i) (bvsle i (len e.drawArgs)) (bvsle (int 0) j) (bvsle (int 0) n) (bvsle n (len e.drawArgs)) (bvsle (int 1) m) (bvsle m n) (bvsle j (bvmul m (int 1))) (bvsle (bvadd i (bvadd j (bvmul (bvsub n m) (int 1)))) (len e.drawArgs)))) (=> (= nA (int 2)) (and (bvsle (int 0) i) (bvsle i (len e.drawArgs)) (bvsle (int 0) j) (bvsle (int 0) n) (bvsle n (len e.drawArgs)) (bvsle (int 1) m) (bvsle m n) (bvsle j (bvmul m (int 2))) (bvsle (bvadd i (bvadd j (bvmul (bvsub n m) (int 2)))) (len e.drawArgs)))) (=> (= nA (int 4)) (and (bvsle (int 0) i) (bvsle i (len e.drawArgs)) (bvsle (int 0) j) (bvsle (int 0) n) (bvsle n (len e.drawArgs)) (bvsle (int 1) m) (bvsle m n) (bvsle j (bvmul m (int 4))) (bvsle (bvadd i (bvadd j (bvmul (bvsub n m) (int 4)))) (len e.drawArgs)))) (=> (= nA (int 6)) (and (bvsle (int 0) i) (bvsle i (len e.drawArgs)) (bvsle (int 0) j) (bvsle (int 0) n) (bvsle n (len e.drawArgs)) (bvsle (int 1) m) (bvsle m n) (bvsle j (bvmul m (int 6))) (bvsle (bvadd i (bvadd j (bvmul (bvsub n m) (int 6)))) (len e.drawArgs)))))
 //@   invariant 1 [flush.arcs] (and (= nA (int 6)) (bvsle (int 0) i) (bvsle i (len e.drawArgs)) (bvsle (int 0) j) (bvsle (int 0) n) (bvsle n (len e.drawArgs)) (bvsle (int 1) m) (bvsle m n) (bvsle j m) (bvsle (bvadd i (bvadd (bvmul j (int 6)) (bvmul (bvsub n m) (int 6)))) (len e.drawArgs)))
+//@   split (enc.nArgsOf e.drawOp) in #x0000000000000000 #x0000000000000001 #x0000000000000002 #x0000000000000004 #x0000000000000006
+// C01, run-length flushing: every pending operand is written exactly once and in order (at every loop head the three counters add up to
+// the run less a remainder shorter than one operation; that a run only ever holds whole operations follows from draw's
+// postcondition C01.draw.pending by induction over the calls), each instruction starts with an opcode that the grammar reads back as this verb with m
+// repetitions (checked where the operand loop is entered, the byte just appended), and each operand handed to the number
+// encoders is the quantised pending operand at the cursor (arcs: two coordinates, angle, flags, two coordinates).
+//@   requires [nargs.table] (= nA (enc.nArgsOf e.drawOp))
+//@   invariant 0 [C01.flush.consumed] (and (=> (= nA (int 1)) (bvslt (len e.drawArgs) (bvadd (bvadd i (bvmul n (int 1))) (int 1)))) (=> (= nA (int 2)) (bvslt (len e.drawArgs) (bvadd (bvadd i (bvmul n (int 2))) (int 2)))) (=> (= nA (int 4)) (bvslt (len e.drawArgs) (bvadd (bvadd i (bvmul n (int 4))) (int 4)))) (=> (= nA (int 6)) (bvslt (len e.drawArgs) (bvadd (bvadd i (bvmul n (int 6))) (int 6)))))
+//@   invariant 2 [C01.flush.args.consumed] (and (=> (= nA (int 1)) (bvslt (len e.drawArgs) (bvadd (bvadd i (bvadd j (bvmul (bvsub n m) (int 1)))) (int 1)))) (=> (= nA (int 2)) (bvslt (len e.drawArgs) (bvadd (bvadd i (bvadd j (bvmul (bvsub n m) (int 2)))) (int 2)))) (=> (= nA (int 4)) (bvslt (len e.drawArgs) (bvadd (bvadd i (bvadd j (bvmul (bvsub n m) (int 4)))) (int 4)))) (=> (= nA (int 6)) (bvslt (len e.drawArgs) (bvadd (bvadd i (bvadd j (bvmul (bvsub n m) (int 6)))) (int 6)))))
+//@   invariant 2 [C01.flush.args.opcode] (and (=> (= nA (int 1)) (=> (= j (bvmul m (int 1))) (and (= (draw.verbOf (at e.buf (bvsub (len e.buf) (int 1)))) e.drawOp) (= (draw.repsOf (at e.buf (bvsub (len e.buf) (int 1)))) m)))) (=> (= nA (int 2)) (=> (= j (bvmul m (int 2))) (and (= (draw.verbOf (at e.buf (bvsub (len e.buf) (int 1)))) e.drawOp) (= (draw.repsOf (at e.buf (bvsub (len e.buf) (int 1)))) m)))) (=> (= nA (int 4)) (=> (= j (bvmul m (int 4))) (and (= (draw.verbOf (at e.buf (bvsub (len e.buf) (int 1)))) e.drawOp) (= (draw.repsOf (at e.buf (bvsub (len e.buf) (int 1)))) m)))) (=> (= nA (int 6)) (=> (= j (bvmul m (int 6))) (and (= (draw.verbOf (at e.buf (bvsub (len e.buf) (int 1)))) e.drawOp) (= (draw.repsOf (at e.buf (bvsub (len e.buf) (int 1)))) m)))))
+//@   invariant 1 [C01.flush.arcs.consumed] (bvslt (len e.drawArgs) (bvadd (bvadd i (bvadd (bvmul j (int 6)) (bvmul (bvsub n m) (int 6)))) (int 6)))
+//@   invariant 1 [C01.flush.arcs.opcode] (=> (= j m) (and (= (draw.verbOf (at e.buf (bvsub (len e.buf) (int 1)))) e.drawOp) (= (draw.repsOf (at e.buf (bvsub (len e.buf) (int 1)))) m)))
+//@   ensures [C01.flush.single] (=> (and (not (= (old e.drawOp) #x00)) (= (enc.nArgsOf (old e.drawOp)) (int 0))) (and (= (len e.buf) (bvadd (len (old e.buf)) (int 1))) (= (draw.verbOf (at e.buf (bvsub (len e.buf) (int 1)))) (old e.drawOp))))
+//@   at call quantize#0 assert [C01.flush.operand] (= arg1 (at e.drawArgs phi:i))
+//@   at call encodeCoordinate#0 assert [C01.flush.operand] (= arg1 (enc.quant e.highResolutionCoordinates (at e.drawArgs phi:i)))
+//@   at call encodeCoordinate#1 assert [C01.flush.arc.operand] (= arg1 (enc.quant e.highResolutionCoordinates (at e.drawArgs phi:i)))
+//@   at call encodeCoordinate#2 assert [C01.flush.arc.operand] (= arg1 (enc.quant e.highResolutionCoordinates (at e.drawArgs (bvadd phi:i (int 1)))))
+//@   at call encodeAngle#0 assert [C01.flush.arc.operand] (= arg1 (at e.drawArgs (bvadd phi:i (int 2))))
+//@   at call encodeNatural#0 assert [C01.flush.arc.operand] (=> (and (fp.leq (_ +zero 8 24) (at e.drawArgs (bvadd phi:i (int 3)))) (fp.leq (at e.drawArgs (bvadd phi:i (int 3))) ((_ to_fp 8 24) RNE 3.0))) (= arg1 ((_ fp.to_ubv 32) RTZ (at e.drawArgs (bvadd phi:i (int 3))))))
+//@   at call encodeCoordinate#3 assert [C01.flush.arc.operand] (= arg1 (enc.quant e.highResolutionCoordinates (at e.drawArgs (bvadd phi:i (int 4)))))
+//@   at call encodeCoordinate#4 assert [C01.flush.arc.operand] (= arg1 (enc.quant e.highResolutionCoordinates (at e.drawArgs (bvadd phi:i (int 5)))))
 
 //@ contract (*Encoder).draw
 //@   note counts C02
 //@   requires Inv
 //@   ensures [inv] Inv
 //@   requires [verb] (enc.isVerb drawOp)
-//@   requires [verb.pending] (or (= e.drawOp #x00) (enc.isVerb e.drawOp))
+//@   requires [verb.pending] PEND
 //@   modifies e.err e.mode e.lod1 e.drawOp e.drawArgs e.buf mem.u8 mem.f32
 //@   ensures [C10.step.draw] (ite (= drawOp #x5a) (proto.afterEnd S0 S1) (proto.afterDraw S0 S1))
-//@   ensures [verb.pending] (or (= e.drawOp #x00) (enc.isVerb e.drawOp))
+//@   ensures [verb.pending] PEND
+// C01, pending run: an accepted drawing call extends the pending run by exactly its own operands, in order, after writing
+// the previous run out if the verb changed (so one run never mixes verbs); the operands already pending stay as they
+// are; Z, Y and y write the run out at once (checked where flushDrawOps is called: the run it is handed); a rejected call
+// leaves run and buffer alone.
+//@   split (enc.nArgsOf drawOp) in #x0000000000000000 #x0000000000000001 #x0000000000000002 #x0000000000000004 #x0000000000000006
+//@   requires [nargs.table] (= ((_ zero_extend 56) drawOps[drawOp].nArgs) (enc.nArgsOf drawOp))
+//@   let DOK (and (= (old e.err) nil.Iface) (= (old e.mode) #x02))
+//@   let DK (enc.nArgsOf drawOp)
+//@   let DBASE (ite (= (old e.drawOp) drawOp) (len (old e.drawArgs)) (int 0))
+//@   let DNOW (or (= drawOp #x5a) (= drawOp #x59) (= drawOp #x79))
+//@   ensures [C01.draw.rejected] (=> (not DOK) (and (= e.drawOp (old e.drawOp)) (= e.drawArgs (old e.drawArgs)) (= e.buf (old e.buf)) (= mem.u8 (old mem.u8)) (= mem.f32 (old mem.f32))))
+//@   ensures [C01.draw.pending] (=> (and DOK (not DNOW)) (and (= e.drawOp drawOp) (= (len e.drawArgs) (bvadd DBASE DK)) (and (=> (bvult (int 0) DK) (= (at e.drawArgs (bvadd DBASE (int 0))) arg0)) (=> (bvult (int 1) DK) (= (at e.drawArgs (bvadd DBASE (int 1))) arg1)) (=> (bvult (int 2) DK) (= (at e.drawArgs (bvadd DBASE (int 2))) arg2)) (=> (bvult (int 3) DK) (= (at e.drawArgs (bvadd DBASE (int 3))) arg3)) (=> (bvult (int 4) DK) (= (at e.drawArgs (bvadd DBASE (int 4))) arg4)) (=> (bvult (int 5) DK) (= (at e.drawArgs (bvadd DBASE (int 5))) arg5)))))
+//@   ensures [C01.draw.kept] (=> (and DOK (not DNOW) (= (old e.drawOp) drawOp)) (forall ((q!d (_ BitVec 64))) (=> (bvult q!d (len (old e.drawArgs))) (= (at e.drawArgs q!d) (old (at e.drawArgs q!d))))))
+//@   ensures [C01.draw.same-buf] (=> (and DOK (not DNOW) (= (old e.drawOp) drawOp)) (and (= e.buf (old e.buf)) (= mem.u8 (old mem.u8))))
+//@   at call flushDrawOps#1 assert [C01.draw.flush-now] (and (= e.drawOp drawOp) (= (len e.drawArgs) (bvadd DBASE DK)) (and (=> (bvult (int 0) DK) (= (at e.drawArgs (bvadd DBASE (int 0))) param:arg0)) (=> (bvult (int 1) DK) (= (at e.drawArgs (bvadd DBASE (int 1))) param:arg1)) (=> (bvult (int 2) DK) (= (at e.drawArgs (bvadd DBASE (int 2))) param:arg2)) (=> (bvult (int 3) DK) (= (at e.drawArgs (bvadd DBASE (int 3))) param:arg3)) (=> (bvult (int 4) DK) (= (at e.drawArgs (bvadd DBASE (int 4))) param:arg4)) (=> (bvult (int 5) DK) (= (at e.drawArgs (bvadd DBASE (int 5))) param:arg5))))
 
 //@ contract (*Encoder).arcTo
 //@   note counts C02
 //@   requires Inv
 //@   ensures [inv] Inv
 //@   requires [verb] (or (= drawOp #x41) (= drawOp #x61))
-//@   requires [verb.pending] (or (= e.drawOp #x00) (enc.isVerb e.drawOp))
+//@   requires [verb.pending] PEND
+//@   at call draw#0 assert [C01.arc.flags] (and (= arg1 drawOp) (= arg2 rx) (= arg3 ry) (= arg4 xAxisRotation) (= arg5 (ite largeArc (ite sweep ((_ to_fp 8 24) RNE 3.0) ((_ to_fp 8 24) RNE 1.0)) (ite sweep ((_ to_fp 8 24) RNE 2.0) (_ +zero 8 24)))) (= arg6 x) (= arg7 y))
 //@   modifies e.err e.mode e.lod1 e.drawOp e.drawArgs e.buf mem.u8 mem.f32
 //@   ensures [C10.step.arcTo] (proto.afterDraw S0 S1)
-//@   ensures [verb.pending] (or (= e.drawOp #x00) (enc.isVerb e.drawOp))
+//@   ensures [verb.pending] PEND
 
 //@ contract (*Encoder).ClosePathEndPath
 //@   note counts C02
 //@   requires Inv
 //@   ensures [inv] Inv
-//@   requires [verb.pending] (or (= e.drawOp #x00) (enc.isVerb e.drawOp))
+//@   requires [verb.pending] PEND
+//@   at call draw#0 assert [C01.verb.dispatch.ClosePathEndPath] (and (= arg1 #x5a))
 //@   modifies e.err e.mode e.lod1 e.drawOp e.drawArgs e.buf mem.u8 mem.f32
 //@   ensures [C10.step.ClosePathEndPath] (proto.afterEnd S0 S1)
-//@   ensures [verb.pending] (or (= e.drawOp #x00) (enc.isVerb e.drawOp))
+//@   ensures [verb.pending] PEND
 
 //@ contract (*Encoder).AbsHLineTo
 //@   note counts C02
 //@   requires Inv
 //@   ensures [inv] Inv
-//@   requires [verb.pending] (or (= e.drawOp #x00) (enc.isVerb e.drawOp))
+//@   requires [verb.pending] PEND
+//@   at call draw#0 assert [C01.verb.dispatch.AbsHLineTo] (and (= arg1 #x48) (= arg2 x))
 //@   modifies e.err e.mode e.lod1 e.drawOp e.drawArgs e.buf mem.u8 mem.f32
 //@   ensures [C10.step.AbsHLineTo] (proto.afterDraw S0 S1)
-//@   ensures [verb.pending] (or (= e.drawOp #x00) (enc.isVerb e.drawOp))
+//@   ensures [verb.pending] PEND
 
 //@ contract (*Encoder).RelHLineTo
 //@   note counts C02
 //@   requires Inv
 //@   ensures [inv] Inv
-//@   requires [verb.pending] (or (= e.drawOp #x00) (enc.isVerb e.drawOp))
+//@   requires [verb.pending] PEND
+//@   at call draw#0 assert [C01.verb.dispatch.RelHLineTo] (and (= arg1 #x68) (= arg2 x))
 //@   modifies e.err e.mode e.lod1 e.drawOp e.drawArgs e.buf mem.u8 mem.f32
 //@   ensures [C10.step.RelHLineTo] (proto.afterDraw S0 S1)
-//@   ensures [verb.pending] (or (= e.drawOp #x00) (enc.isVerb e.drawOp))
+//@   ensures [verb.pending] PEND
 
 //@ contract (*Encoder).AbsVLineTo
 //@   note counts C02
 //@   requires Inv
 //@   ensures [inv] Inv
-//@   requires [verb.pending] (or (= e.drawOp #x00) (enc.isVerb e.drawOp))
+//@   requires [verb.pending] PEND
+//@   at call draw#0 assert [C01.verb.dispatch.AbsVLineTo] (and (= arg1 #x56) (= arg2 y))
 //@   modifies e.err e.mode e.lod1 e.drawOp e.drawArgs e.buf mem.u8 mem.f32
 //@   ensures [C10.step.AbsVLineTo] (proto.afterDraw S0 S1)
-//@   ensures [verb.pending] (or (= e.drawOp #x00) (enc.isVerb e.drawOp))
+//@   ensures [verb.pending] PEND
 
 //@ contract (*Encoder).RelVLineTo
 //@   note counts C02
 //@   requires Inv
 //@   ensures [inv] Inv
-//@   requires [verb.pending] (or (= e.drawOp #x00) (enc.isVerb e.drawOp))
+//@   requires [verb.pending] PEND
+//@   at call draw#0 assert [C01.verb.dispatch.RelVLineTo] (and (= arg1 #x76) (= arg2 y))
 //@   modifies e.err e.mode e.lod1 e.drawOp e.drawArgs e.buf mem.u8 mem.f32
 //@   ensures [C10.step.RelVLineTo] (proto.afterDraw S0 S1)
-//@   ensures [verb.pending] (or (= e.drawOp #x00) (enc.isVerb e.drawOp))
+//@   ensures [verb.pending] PEND
 
 //@ contract (*Encoder).AbsLineTo
 //@   note counts C02
 //@   requires Inv
 //@   ensures [inv] Inv
-//@   requires [verb.pending] (or (= e.drawOp #x00) (enc.isVerb e.drawOp))
+//@   requires [verb.pending] PEND
+//@   at call draw#0 assert [C01.verb.dispatch.AbsLineTo] (and (= arg1 #x4c) (= arg2 x) (= arg3 y))
 //@   modifies e.err e.mode e.lod1 e.drawOp e.drawArgs e.buf mem.u8 mem.f32
 //@   ensures [C10.step.AbsLineTo] (proto.afterDraw S0 S1)
-//@   ensures [verb.pending] (or (= e.drawOp #x00) (enc.isVerb e.drawOp))
+//@   ensures [verb.pending] PEND
 
 //@ contract (*Encoder).RelLineTo
 //@   note counts C02
 //@   requires Inv
 //@   ensures [inv] Inv
-//@   requires [verb.pending] (or (= e.drawOp #x00) (enc.isVerb e.drawOp))
+//@   requires [verb.pending] PEND
+//@   at call draw#0 assert [C01.verb.dispatch.RelLineTo] (and (= arg1 #x6c) (= arg2 x) (= arg3 y))
 //@   modifies e.err e.mode e.lod1 e.drawOp e.drawArgs e.buf mem.u8 mem.f32
 //@   ensures [C10.step.RelLineTo] (proto.afterDraw S0 S1)
-//@   ensures [verb.pending] (or (= e.drawOp #x00) (enc.isVerb e.drawOp))
+//@   ensures [verb.pending] PEND
 
 //@ contract (*Encoder).AbsSmoothQuadTo
 //@   note counts C02
 //@   requires Inv
 //@   ensures [inv] Inv
-//@   requires [verb.pending] (or (= e.drawOp #x00) (enc.isVerb e.drawOp))
+//@   requires [verb.pending] PEND
+//@   at call draw#0 assert [C01.verb.dispatch.AbsSmoothQuadTo] (and (= arg1 #x54) (= arg2 x) (= arg3 y))
 //@   modifies e.err e.mode e.lod1 e.drawOp e.drawArgs e.buf mem.u8 mem.f32
 //@   ensures [C10.step.AbsSmoothQuadTo] (proto.afterDraw S0 S1)
-//@   ensures [verb.pending] (or (= e.drawOp #x00) (enc.isVerb e.drawOp))
+//@   ensures [verb.pending] PEND
 
 //@ contract (*Encoder).RelSmoothQuadTo
 //@   note counts C02
 //@   requires Inv
 //@   ensures [inv] Inv
-//@   requires [verb.pending] (or (= e.drawOp #x00) (enc.isVerb e.drawOp))
+//@   requires [verb.pending] PEND
+//@   at call draw#0 assert [C01.verb.dispatch.RelSmoothQuadTo] (and (= arg1 #x74) (= arg2 x) (= arg3 y))
 //@   modifies e.err e.mode e.lod1 e.drawOp e.drawArgs e.buf mem.u8 mem.f32
 //@   ensures [C10.step.RelSmoothQuadTo] (proto.afterDraw S0 S1)
-//@   ensures [verb.pending] (or (= e.drawOp #x00) (enc.isVerb e.drawOp))
+//@   ensures [verb.pending] PEND
 
 //@ contract (*Encoder).AbsQuadTo
 //@   note counts C02
 //@   requires Inv
 //@   ensures [inv] Inv
-//@   requires [verb.pending] (or (= e.drawOp #x00) (enc.isVerb e.drawOp))
+//@   requires [verb.pending] PEND
+//@   at call draw#0 assert [C01.verb.dispatch.AbsQuadTo] (and (= arg1 #x51) (= arg2 x1) (= arg3 y1) (= arg4 x) (= arg5 y))
 //@   modifies e.err e.mode e.lod1 e.drawOp e.drawArgs e.buf mem.u8 mem.f32
 //@   ensures [C10.step.AbsQuadTo] (proto.afterDraw S0 S1)
-//@   ensures [verb.pending] (or (= e.drawOp #x00) (enc.isVerb e.drawOp))
+//@   ensures [verb.pending] PEND
 
 //@ contract (*Encoder).RelQuadTo
 //@   note counts C02
 //@   requires Inv
 //@   ensures [inv] Inv
-//@   requires [verb.pending] (or (= e.drawOp #x00) (enc.isVerb e.drawOp))
+//@   requires [verb.pending] PEND
+//@   at call draw#0 assert [C01.verb.dispatch.RelQuadTo] (and (= arg1 #x71) (= arg2 x1) (= arg3 y1) (= arg4 x) (= arg5 y))
 //@   modifies e.err e.mode e.lod1 e.drawOp e.drawArgs e.buf mem.u8 mem.f32
 //@   ensures [C10.step.RelQuadTo] (proto.afterDraw S0 S1)
-//@   ensures [verb.pending] (or (= e.drawOp #x00) (enc.isVerb e.drawOp))
+//@   ensures [verb.pending] PEND
 
 //@ contract (*Encoder).AbsSmoothCubeTo
 //@   note counts C02
 //@   requires Inv
 //@   ensures [inv] Inv
-//@   requires [verb.pending] (or (= e.drawOp #x00) (enc.isVerb e.drawOp))
+//@   requires [verb.pending] PEND
+//@   at call draw#0 assert [C01.verb.dispatch.AbsSmoothCubeTo] (and (= arg1 #x53) (= arg2 x2) (= arg3 y2) (= arg4 x) (= arg5 y))
 //@   modifies e.err e.mode e.lod1 e.drawOp e.drawArgs e.buf mem.u8 mem.f32
 //@   ensures [C10.step.AbsSmoothCubeTo] (proto.afterDraw S0 S1)
-//@   ensures [verb.pending] (or (= e.drawOp #x00) (enc.isVerb e.drawOp))
+//@   ensures [verb.pending] PEND
 
 //@ contract (*Encoder).RelSmoothCubeTo
 //@   note counts C02
 //@   requires Inv
 //@   ensures [inv] Inv
-//@   requires [verb.pending] (or (= e.drawOp #x00) (enc.isVerb e.drawOp))
+//@   requires [verb.pending] PEND
+//@   at call draw#0 assert [C01.verb.dispatch.RelSmoothCubeTo] (and (= arg1 #x73) (= arg2 x2) (= arg3 y2) (= arg4 x) (= arg5 y))
 //@   modifies e.err e.mode e.lod1 e.drawOp e.drawArgs e.buf mem.u8 mem.f32
 //@   ensures [C10.step.RelSmoothCubeTo] (proto.afterDraw S0 S1)
-//@   ensures [verb.pending] (or (= e.drawOp #x00) (enc.isVerb e.drawOp))
+//@   ensures [verb.pending] PEND
 
 //@ contract (*Encoder).AbsCubeTo
 //@   note counts C02
 //@   requires Inv
 //@   ensures [inv] Inv
-//@   requires [verb.pending] (or (= e.drawOp #x00) (enc.isVerb e.drawOp))
+//@   requires [verb.pending] PEND
+//@   at call draw#0 assert [C01.verb.dispatch.AbsCubeTo] (and (= arg1 #x43) (= arg2 x1) (= arg3 y1) (= arg4 x2) (= arg5 y2) (= arg6 x) (= arg7 y))
 //@   modifies e.err e.mode e.lod1 e.drawOp e.drawArgs e.buf mem.u8 mem.f32
 //@   ensures [C10.step.AbsCubeTo] (proto.afterDraw S0 S1)
-//@   ensures [verb.pending] (or (= e.drawOp #x00) (enc.isVerb e.drawOp))
+//@   ensures [verb.pending] PEND
 
 //@ contract (*Encoder).RelCubeTo
 //@   note counts C02
 //@   requires Inv
 //@   ensures [inv] Inv
-//@   requires [verb.pending] (or (= e.drawOp #x00) (enc.isVerb e.drawOp))
+//@   requires [verb.pending] PEND
+//@   at call draw#0 assert [C01.verb.dispatch.RelCubeTo] (and (= arg1 #x63) (= arg2 x1) (= arg3 y1) (= arg4 x2) (= arg5 y2) (= arg6 x) (= arg7 y))
 //@   modifies e.err e.mode e.lod1 e.drawOp e.drawArgs e.buf mem.u8 mem.f32
 //@   ensures [C10.step.RelCubeTo] (proto.afterDraw S0 S1)
-//@   ensures [verb.pending] (or (= e.drawOp #x00) (enc.isVerb e.drawOp))
+//@   ensures [verb.pending] PEND
 
 //@ contract (*Encoder).ClosePathAbsMoveTo
 //@   note counts C02
 //@   requires Inv
 //@   ensures [inv] Inv
-//@   requires [verb.pending] (or (= e.drawOp #x00) (enc.isVerb e.drawOp))
+//@   requires [verb.pending] PEND
+//@   at call draw#0 assert [C01.verb.dispatch.ClosePathAbsMoveTo] (and (= arg1 #x59) (= arg2 x) (= arg3 y))
 //@   modifies e.err e.mode e.lod1 e.drawOp e.drawArgs e.buf mem.u8 mem.f32
 //@   ensures [C10.step.ClosePathAbsMoveTo] (proto.afterDraw S0 S1)
-//@   ensures [verb.pending] (or (= e.drawOp #x00) (enc.isVerb e.drawOp))
+//@   ensures [verb.pending] PEND
 
 //@ contract (*Encoder).ClosePathRelMoveTo
 //@   note counts C02
 //@   requires Inv
 //@   ensures [inv] Inv
-//@   requires [verb.pending] (or (= e.drawOp #x00) (enc.isVerb e.drawOp))
+//@   requires [verb.pending] PEND
+//@   at call draw#0 assert [C01.verb.dispatch.ClosePathRelMoveTo] (and (= arg1 #x79) (= arg2 x) (= arg3 y))
 //@   modifies e.err e.mode e.lod1 e.drawOp e.drawArgs e.buf mem.u8 mem.f32
 //@   ensures [C10.step.ClosePathRelMoveTo] (proto.afterDraw S0 S1)
-//@   ensures [verb.pending] (or (= e.drawOp #x00) (enc.isVerb e.drawOp))
+//@   ensures [verb.pending] PEND
 
 //@ contract (*Encoder).AbsArcTo
 //@   note counts C02
 //@   requires Inv
 //@   ensures [inv] Inv
-//@   requires [verb.pending] (or (= e.drawOp #x00) (enc.isVerb e.drawOp))
+//@   requires [verb.pending] PEND
+//@   at call arcTo#0 assert [C01.verb.dispatch.AbsArcTo] (and (= arg1 #x41) (= arg2 rx) (= arg3 ry) (= arg4 xAxisRotation) (= arg5 largeArc) (= arg6 sweep) (= arg7 x) (= arg8 y))
 //@   modifies e.err e.mode e.lod1 e.drawOp e.drawArgs e.buf mem.u8 mem.f32
 //@   ensures [C10.step.AbsArcTo] (proto.afterDraw S0 S1)
-//@   ensures [verb.pending] (or (= e.drawOp #x00) (enc.isVerb e.drawOp))
+//@   ensures [verb.pending] PEND
 
 //@ contract (*Encoder).RelArcTo
 //@   note counts C02
 //@   requires Inv
 //@   ensures [inv] Inv
-//@   requires [verb.pending] (or (= e.drawOp #x00) (enc.isVerb e.drawOp))
+//@   requires [verb.pending] PEND
+//@   at call arcTo#0 assert [C01.verb.dispatch.RelArcTo] (and (= arg1 #x61) (= arg2 rx) (= arg3 ry) (= arg4 xAxisRotation) (= arg5 largeArc) (= arg6 sweep) (= arg7 x) (= arg8 y))
 //@   modifies e.err e.mode e.lod1 e.drawOp e.drawArgs e.buf mem.u8 mem.f32
 //@   ensures [C10.step.RelArcTo] (proto.afterDraw S0 S1)
-//@   ensures [verb.pending] (or (= e.drawOp #x00) (enc.isVerb e.drawOp))
+//@   ensures [verb.pending] PEND
 
 //@ contract (*Encoder).Bytes
 //@   note counts C02
 //@   requires Inv
 //@   ensures [inv] Inv
-//@   requires [verb.pending] (or (= e.drawOp #x00) (enc.isVerb e.drawOp))
+//@   requires [verb.pending] PEND
 //@   modifies e.buf e.mode e.lod1 e.drawOp e.drawArgs mem.u8
 //@   ensures [C10.step.Bytes] (proto.afterNeutral S0 S1)
 //@   ensures [C10.bytes.err] (= result.1 (old e.err))
